@@ -148,9 +148,9 @@ func runControls(repo, verif, id string, base *Result) *controlsEvidence {
 		return list[i].line < list[j].line
 	})
 	type outcome struct {
-		site    *controlSite
-		status  string // flipped | redundant | unbuildable
-		detail  string
+		site   *controlSite
+		status string // flipped | redundant | unbuildable
+		detail string
 	}
 	outs := make([]outcome, len(list))
 	var wg sync.WaitGroup
